@@ -332,6 +332,35 @@ def rowSweep (n1 n2 : Nat) : List Nat := List.range (n1 * n2)
 def colSweep (n1 n2 : Nat) : List Nat :=
   (List.range n2).flatMap fun j => (List.range n1).map fun i => i * n2 + j
 
+/-! ## blocked / tiled kernels (`kernels/default/fold_rows.hpp`, `kernels/cblas/dense_gemm.hpp`,
+`kernels/default/dense_gemm.hpp`): the index arithmetic of the blocking, as executable functions -/
+
+/-- column-major `fold_rows` kernel: the rows are processed in blocks of `bs` accumulators
+(`BLOCK_SIZE = 16`); accumulator `i` of block `b` belongs to row `b*bs + i`, is seeded with that
+row's first element and folds the columns `1 .. n2-1`.  This is entry `r` of the result. -/
+def foldRowsBlocked {R : Type} (f : R → R → R) (g : R → R) (get : Nat → Nat → R) (n2 bs : Nat)
+    (r : Nat) : R :=
+  let b := r / bs
+  let i := r % bs
+  let start := b * bs
+  g (foldFrom f (fun k => get (start + i) k) (n2 - 1))
+
+/-- a left fold over `x 0 .. x n` that starts from a seed value instead of the first element
+(NOT what the kernels do; kept to state that the first-element seed matters) -/
+def foldSeeded {R : Type} (f : R → R → R) (seed : R) (x : Nat → R) : Nat → R
+  | 0 => f seed (x 0)
+  | n+1 => f (foldSeeded f seed x n) (x (n+1))
+
+/-- the tiled inner dimension of the BLAS fallback `dense_gemm(A,B,C,alpha,false_type)` and of the
+default block gemm (`KC`): tile `b` starts at `b*T` and has `min T (K - b*T)` columns; there are
+`⌈K/T⌉` tiles; every tile contributes the partial sum over its columns -/
+def sumTiled {R : Type} [Zero R] [Add R] (T K : Nat) (f : Nat → R) : R :=
+  sumTo ((K + T - 1) / T) (fun b => sumTo (min T (K - b * T)) (fun k => f (b * T + k)))
+
+/-- first and last address a (non-empty) strided proxy touches -/
+def VRef.first (v : VRef) : Nat := v.base
+def VRef.last (v : VRef) : Nat := v.base + (v.size - 1) * v.stride
+
 /-- the assignment forms: `x(i) ← f(x(i), e(i))` -/
 inductive Form where
   | set | plus | minus | times | divide
